@@ -175,6 +175,14 @@ def normalise(case):
     c.setdefault('early', False)
     c.setdefault('shared', False)
     c.setdefault('progress', True)
+    # an application-level HS_DESC listener registered BEFORE the creation starts (after the harness listener, so
+    # directly in front of the service's own listener in Event.callbacks): None = no such listener, 0 = it stays,
+    # k >= 1 = it removes itself (remove_event_listener) during the dispatch of the k-th HS_DESC event it sees.
+    # An environment dimension: on a correct dispatch loop it is inert for the service, so Coq never sees it.
+    # The harness listener stays installed as well (shared), so that HS_DESC stays subscribed whatever it does.
+    c.setdefault('app', None)
+    if c['app'] is not None:
+        c['shared'] = True
     if c['svc'] == 'eph':
         c['early'] = False
     if c['svc'] in AUTH_KINDS:
@@ -199,7 +207,10 @@ class P(core.Prop):
             '(basic auth, key given / on disk, events matched by permanent id) on a real TorControlProtocol + TorConfig, '
             'then HS_DESC UPLOAD/UPLOADED/FAILED events of the service and of a second service over 1..4 shared '
             'directories as real 650 lines, with the reply (or rarely a rejection) before / between / after / never; '
-            'both waiting modes; with and without another HS_DESC listener and a progress callback. '
+            'both waiting modes; with and without another HS_DESC listener and a progress callback; in 25% of the random '
+            'histories (and every 12th case of the enumerations) an application-level HS_DESC listener registered before '
+            'the creation, directly in front of the service\'s listener, that removes itself during the dispatch of the '
+            'k-th HS_DESC event it sees (k = 1 .. number of events, or never): inert for the service, not an input of the model. '
             'quick: EVERY sequence of <=4 own events over 2 directories with the reply first, every sequence of <=3 with '
             'the reply at every position (address known early), a sample of the interleavings with <=2 foreign events, '
             'plus random histories (70% protocol-conformant lifecycles with retries/duplicates, 30% arbitrary orderings). '
@@ -236,8 +247,16 @@ class P(core.Prop):
         def harness_listener(data):
             pass
 
+        app_seen = [0]
+
+        def app_listener(data):
+            # a one-shot application listener: goes away while the k-th event it sees is being dispatched
+            app_seen[0] += 1
+            if case['app'] and app_seen[0] == case['app']:
+                proto.remove_event_listener('HS_DESC', app_listener)
+
         def n_cb():
-            return len([c for c in hs_event.callbacks if c is not harness_listener])
+            return len([c for c in hs_event.callbacks if c is not harness_listener and c is not app_listener])
 
         def on_line(line):
             s = line.decode('latin-1')
@@ -250,6 +269,9 @@ class P(core.Prop):
 
         if case['shared']:
             proto.add_event_listener('HS_DESC', harness_listener)
+            w.pump()
+        if case['app'] is not None:
+            proto.add_event_listener('HS_DESC', app_listener)
             w.pump()
         w.take_unanswered()
         w.on_line = on_line
@@ -335,6 +357,8 @@ class P(core.Prop):
             _log_sink[0] = None
             if hsdir:
                 shutil.rmtree(hsdir, True)
+        if case['app'] is not None:
+            return {'ops': ops, 'app_seen': app_seen[0], 'app_left': app_listener not in hs_event.callbacks}
         return {'ops': ops}
 
     # ---------------------------------------------------------------- printing
@@ -396,8 +420,20 @@ class P(core.Prop):
             for e in r['evs']:
                 if e[0] == 'done':
                     out = e[1]
-        return '%s%s/%s/reply-%s/%s' % (case['svc'], '-early' if case['early'] else '',
-                                        'all' if case['await'] is True else 'any', rp, out)
+        app = ''
+        if case['app'] is not None:
+            # which event the application listener leaves on: never / an own UPLOADED / another event / none (k too big)
+            evs = [o for o in ops if o[0] == 'ev']
+            if case['app'] == 0:
+                app = '/app-stays'
+            elif case['app'] > len(evs):
+                app = '/app-leaves-never-reached'
+            elif evs[case['app'] - 1][1] == 'UPLOADED' and evs[case['app'] - 1][2] == 0:
+                app = '/app-leaves-on-own-uploaded'
+            else:
+                app = '/app-leaves-on-other-event'
+        return '%s%s/%s/reply-%s/%s%s' % (case['svc'], '-early' if case['early'] else '',
+                                          'all' if case['await'] is True else 'any', rp, out, app)
 
     def nontrivial(self, case, obs):
         ops = case['ops']
@@ -417,7 +453,11 @@ class P(core.Prop):
             svc = 'fs_auth'
         # directory names: fingerprint-only / long form ($FP~nick) / both forms for one directory (every 9th case)
         names = 'mixed' if i % 9 == 4 else ('long' if i % 2 else 'short')
-        return {'svc': svc, 'ver': 3 if i % 3 else 2, 'await': [None, False][i % 2] if not aw else True,
+        # every third of the cases that have the shared listener anyway (= every 12th case) also has the application
+        # listener; it leaves on the k-th event, k running over 0 (stays), 1 .. number of events
+        nev = len([o for o in ops if o[0] == 'ev'])
+        app = (i // 12) % (nev + 1) if i % 12 == 1 else None
+        return {'svc': svc, 'app': app, 'ver': 3 if i % 3 else 2, 'await': [None, False][i % 2] if not aw else True,
                 'early': bool(early) if svc != 'eph' else False,
                 'shared': i % 4 == 1, 'progress': i % 7 != 3, 'ops': with_names(ops, names, i)}
 
@@ -550,6 +590,23 @@ class P(core.Prop):
                         'early': early, 'shared': rng.random() < 0.3, 'progress': rng.random() < 0.7,
                         'ops': with_names(ops, names, rng.randrange(1000)),
                         'decor': rng.choice([0, 0, 1, 2, 3, 4, 5, 6, 7, 8, 9, 10])})
+        # second pass (after all the draws above, so the histories of a seed are the ones they were before this
+        # dimension existed): 25% of the cases get the application-level HS_DESC listener; of those 15% stay for
+        # good, 45% leave on a chosen own UPLOADED (one-shot listener waiting for a confirmation), 40% on the k-th
+        # event, k uniform over 1 .. number of events
+        for c in out:
+            if rng.random() >= 0.25:
+                continue
+            evs = [o for o in c['ops'] if o[0] == 'ev']
+            ups = [j + 1 for j, o in enumerate(evs) if o[1] == 'UPLOADED' and o[2] == 0]
+            r = rng.random()
+            if r < 0.15 or not evs:
+                c['app'] = 0
+            elif r < 0.6 and ups:
+                c['app'] = rng.choice(ups)
+            else:
+                c['app'] = rng.randrange(1, len(evs) + 1)
+            c['shared'] = True
         return out
 
     def shrink_candidates(self, case):
@@ -559,7 +616,13 @@ class P(core.Prop):
             yield dict(case, ops=ops[:i] + ops[i + 1:])
         if case.get('decor'):
             yield dict(case, decor=0)
-        if case['shared']:
+        if case['app'] is not None:
+            yield dict(case, app=None)
+            if case['app'] > 1 and ops and ops[0][0] == 'ev':
+                yield dict(case, ops=ops[1:], app=case['app'] - 1)     # drop the first event, keep the leaving point
+            if case['app'] > 0:
+                yield dict(case, app=0)
+        if case['shared'] and case['app'] is None:
             yield dict(case, shared=False)
         if case['progress']:
             yield dict(case, progress=False)
